@@ -40,6 +40,19 @@ func c16genClientSide(c *core.Case, r *rand.Rand) {
 			c.Ops = append(c.Ops, op)
 		}
 	}
+	if r.IntN(3) == 0 {
+		// one object removed by two parties at once (one of them the object
+		// itself) while others call it
+		t := int64(r.IntN(2))
+		kinds := [][]string{{"cremove", "cself"}, {"cself", "cself"}, {"cremove", "cremove"}}[r.IntN(3)]
+		c.Ops = append(c.Ops,
+			core.Op{Kind: kinds[0], Actor: 10, X: t},
+			core.Op{Kind: kinds[1], Actor: 11, X: t},
+			core.Op{Kind: "ccall", Actor: 11, X: t},
+			core.Op{Kind: "ccall", Actor: 12, X: t},
+			core.Op{Kind: "ccall", Actor: 12, X: t})
+		c.Params["double_removal"] = 1
+	}
 }
 
 type c16lent struct {
